@@ -115,7 +115,7 @@ def mutate_obs(r, obs):
 
 def mutate_json(r, meta):
     m = copy.deepcopy(meta)
-    ops = ["wrong-type", "huge", "deep", "drop-ovni", "cpus-nokeys", "slash", "torn", "not-object", "mark-garbage", "neg", "float"]
+    ops = ["wrong-type", "huge", "deep", "deep-array", "drop-ovni", "cpus-nokeys", "slash", "torn", "not-object", "mark-garbage", "neg", "float"]
     k = r.choice(ops)
     o = m.get("ovni", {})
     if k == "wrong-type":
@@ -144,7 +144,12 @@ def mutate_json(r, meta):
         o[r.choice(["tid", "pid", "app_id", "rank"])] = -5
     elif k == "float":
         o[r.choice(["tid", "pid", "app_id"])] = 1.5
+    if k == "deep-array":
+        adepth = r.choice([100, 2047, 2048, 2049, 3000, 100000, 1000000])
+        o["pad"] = "@@ARR@@"
     txt = json.dumps(m)
+    if k == "deep-array":
+        txt = txt.replace('"@@ARR@@"', "[" * adepth + "]" * adepth)
     if k == "deep":
         txt = txt.replace('"@@DEEP@@"', '{"a":' * depth + "{}" + "}" * depth)
     if k == "torn":
